@@ -87,6 +87,30 @@ theorem chk_tensor_setitem (p : Params) (ops : List View) (h : atLeast 1 p ops.l
   have h0 : 0 < ops.length := by simp [atLeast] at h; omega
   unfold tensor_setitem; (repeat' split) <;> chk_simp
 
+theorem chk_tensor_elementwise (p : Params) (ops : List View) :
+    specCheck .pureFresh ops.length (tensor_elementwise p ops) = true := by
+  unfold tensor_elementwise; chk_simp
+
+theorem chk_tensor_ttv (p : Params) (ops : List View) :
+    specCheck .pureFresh ops.length (tensor_ttv p ops) = true := by
+  unfold tensor_ttv; (repeat' split) <;> chk_simp
+
+theorem chk_tensor_ttm (p : Params) (ops : List View) :
+    specCheck .pureFresh ops.length (tensor_ttm p ops) = true := by
+  unfold tensor_ttm; chk_simp
+
+theorem chk_tensor_mttkrp (p : Params) (ops : List View) :
+    specCheck .pureFresh ops.length (tensor_mttkrp p ops) = true := by
+  unfold tensor_mttkrp; chk_simp
+
+theorem chk_sptensor_copysubs (p : Params) (ops : List View) :
+    specCheck .pureFresh ops.length (sptensor_copysubs_newvals p ops) = true := by
+  unfold sptensor_copysubs_newvals; chk_simp
+
+theorem chk_ktensor_full (p : Params) (ops : List View) :
+    specCheck .pureFresh ops.length (ktensor_full p ops) = true := by
+  unfold ktensor_full; chk_simp
+
 /-! ### sparse -/
 
 theorem chk_sptensor_init (p : Params) (ops : List View) (h : atLeast 2 p ops.length = true) :
@@ -606,7 +630,7 @@ theorem table_sound : ∀ e ∈ table, ∀ (p : Params) (ops : List View), e.che
   · simp only [hpre, Bool.not_true, Bool.false_or]
     rcases he with rfl | rfl | rfl | rfl | rfl | rfl | rfl | rfl | rfl | rfl | rfl | rfl | rfl | rfl | rfl |
       rfl | rfl | rfl | rfl | rfl | rfl | rfl | rfl | rfl | rfl | rfl | rfl | rfl | rfl | rfl | rfl | rfl |
-      rfl | rfl | rfl | rfl | rfl | rfl | rfl | rfl | rfl | rfl | rfl | rfl
+      rfl | rfl | rfl | rfl | rfl | rfl | rfl | rfl | rfl | rfl | rfl | rfl | rfl | rfl | rfl | rfl | rfl | rfl
     · exact chk_tensor_init p ops hpre
     · exact chk_tensor_copy p ops
     · exact chk_tensor_double p ops
@@ -617,6 +641,12 @@ theorem table_sound : ∀ e ∈ table, ∀ (p : Params) (ops : List View), e.che
     · exact chk_tensor_to_sptensor p ops
     · exact chk_tensor_to_tenmat p ops
     · exact chk_tensor_setitem p ops hpre
+    · exact chk_tensor_elementwise p ops
+    · exact chk_tensor_ttv p ops
+    · exact chk_tensor_ttm p ops
+    · exact chk_tensor_mttkrp p ops
+    · exact chk_sptensor_copysubs p ops
+    · exact chk_ktensor_full p ops
     · exact chk_sptensor_init p ops hpre
     · exact chk_sptensor_copy p ops
     · exact chk_sptensor_find p ops hpre
